@@ -10,13 +10,16 @@ scheduled, FIFO order is asyncio's) or stepped one call-back at a time ("manual"
 import asyncio
 import itertools
 import json
+import time
 
 import common
 import vloop
 
 PRIORITY = ["MRP", "DMAP", "Companion", "AirPlay", "RAOP"]   # order given by the property text (C01)
-NSTATUS = 5
-# play statuses that agree in most fields and differ in exactly one (first, middle, last property)
+# play statuses 0..4: derived hash, agree in most fields and differ in exactly one;
+# status 5: every field set and an EXPLICIT hash (as MRP supplies the content identifier);
+# status 6+j: status 5 with field j of Playing._PROPERTIES changed and nothing else (hash included:
+# "differs only in hash"; title/artist/album/total_time: differs although the hash is the same)
 STATUS_KW = [
     dict(title="t", position=1),
     dict(title="t", position=2),
@@ -24,6 +27,15 @@ STATUS_KW = [
     dict(title="t", position=1, itunes_store_identifier=7),
     dict(title="t", position=1, media_type="video"),
 ]
+STATUS_BASE = 5
+
+
+def status_count():
+    from pyatv import interface
+    return STATUS_BASE + 1 + len(interface.Playing._PROPERTIES)
+
+
+NSTATUS = status_count()
 # volumes: index -> value given to the facade, and the canonical index of the values that are EQUAL
 # for a listener (-0.0 == 0.0, 10 == 10.0)
 # (one unit = one volume step of 5 percent, as volume_up / volume_down of the protocols move it)
@@ -81,8 +93,13 @@ def run_on_steploop(coro_factory, *a):
         loop.close()
 
 
-async def drive(loop, cfg, ops, manual):
-    """cfg = {"protos": [[rank, has_push, has_keyboard(, stop_raises)], ...]}; returns per-op [result, deliveries]."""
+class Device:
+    pass
+
+
+async def make_device(loop, cfg, manual):
+    """One device object: real FacadeAppleTV with its own CoreStateDispatcher, mock protocols and recording user
+    listeners.  cfg = {"protos": [[rank, has_push, has_keyboard(, stop_raises(, has_audio))], ...], "faults": [...]}."""
     from pyatv import conf, const, exceptions, interface
     from pyatv.const import KeyboardFocusState, Protocol
     from pyatv.core import (AbstractPushUpdater, ProtocolStateDispatcher, SetupData, UpdatedState,
@@ -181,7 +198,25 @@ async def drive(loop, cfg, ops, manual):
     DEVS = DEV_VALUES
     VOLS = VOL_VALUES
 
+    FULL = dict(media_type=const.MediaType.Music, device_state=const.DeviceState.Playing, title="t", artist="a", album="b",
+                genre="g", total_time=100, position=1, shuffle=const.ShuffleState.Off, repeat=const.RepeatState.Off, hash="h",
+                series_name="s", season_number=1, episode_number=1, content_identifier="c", itunes_store_identifier=1)
+
+    def other(v):
+        if isinstance(v, str):
+            return v + "2"
+        if isinstance(v, int) and not hasattr(v, "name"):
+            return v + 1
+        return [m for m in type(v) if m != v][0]          # another member of the enum
+
     def mk_status(k):
+        if k >= STATUS_BASE:
+            props = interface.Playing._PROPERTIES
+            kw = dict((p, FULL[p]) for p in props)        # a property unknown here: KeyError (fail closed)
+            if k > STATUS_BASE:
+                p = props[k - STATUS_BASE - 1]
+                kw[p] = other(kw[p])
+            return interface.Playing(**kw)
         kw = dict(STATUS_KW[k])
         if "media_type" in kw:
             kw["media_type"] = const.MediaType.Video
@@ -190,6 +225,8 @@ async def drive(loop, cfg, ops, manual):
     def fields(p):
         return tuple(getattr(p, prop) for prop in interface.Playing._PROPERTIES)
     STATUS_FIELDS = [fields(mk_status(k)) for k in range(NSTATUS)]
+    if len(set(STATUS_FIELDS)) != NSTATUS:
+        raise ValueError("play status values are not pairwise different")
 
     def status_index(p):
         return STATUS_FIELDS.index(fields(p))
@@ -238,10 +275,8 @@ async def drive(loop, cfg, ops, manual):
     pu.listener, audio.listener, kbd.listener = listeners
     relayers = {"push": pu, "kbd": kbd}
     IFACE = {"push": interface.PushUpdater, "kbd": interface.Keyboard}
-    loop.manual = manual
-    outs = []
-    for op in ops:
-        n0 = len(got)
+
+    async def apply(op):
         k = op[0]
         res = "ok"
         try:
@@ -301,12 +336,56 @@ async def drive(loop, cfg, ops, manual):
             raise
         except Exception as ex:
             res = "raise:" + type(ex).__name__
-        outs.append([res, got[n0:]])
+        return res
+    dev = Device()
+    dev.apply, dev.got, dev.keep = apply, got, listeners
+    return dev
+
+
+async def drive(loop, cfg, ops, manual):
+    """Returns per op [result, deliveries to device 1's listeners(, deliveries to device 2's listeners)].
+    With cfg["twin"] a second device object (own facade, own CoreStateDispatcher, own listeners) lives in the
+    same process; ops written ["@2", op] go to it, the loop ops are shared."""
+    devs = [await make_device(loop, cfg, manual)]
+    if cfg.get("twin") is not None:
+        devs.append(await make_device(loop, cfg["twin"], manual))
+    loop.manual = manual
+    outs = []
+    for op in ops:
+        which = 0
+        if op[0] == "@2":
+            which, op = 1, op[1]
+        marks = [len(d.got) for d in devs]
+        res = await devs[which].apply(op)
+        outs.append([res] + [d.got[m:] for d, m in zip(devs, marks)])
     return outs
 
 
 def run_case(cfg, ops, manual):
     return run_on_steploop(drive, cfg, ops, manual)
+
+
+def project(cfg, ops, raw):
+    """Split a two-device run into one ordinary case per device: its own ops plus the shared loop ops, with
+    what ITS listeners received.  Returns [(cfg_k, ops_k, outs_k)], leaked (notifications that arrived while
+    only the other device was being operated)."""
+    if cfg.get("twin") is None:
+        return [(cfg, ops, raw)], []
+    if any((o[1][0] if o[0] == "@2" else o[0]) == "Run1" for o in ops):
+        raise ValueError("two devices share the loop: only RunAll")
+    cases = [(dict((k, v) for k, v in cfg.items() if k != "twin"), [], []), (cfg["twin"], [], [])]
+    leaked = []
+    for op, (res, d1, d2) in zip(ops, raw):
+        own = 1 if op[0] == "@2" else 0
+        plain_op = op[1] if own else op
+        shared = plain_op[0] == "RunAll"
+        for k, ds in ((0, d1), (1, d2)):
+            if k == own or shared:
+                cases[k][1].append(plain_op)
+                cases[k][2].append([res if k == own else "ok", ds])
+            elif ds:
+                leaked.append((k + 1, op, ds))
+    return cases, leaked
 
 
 # ------------------------------------------------------------------ oracle (property text)
@@ -441,6 +520,38 @@ def oracle(cfg, ops, outs):
     return sorted(seen.items())
 
 
+def judge(cfg, ops, manual):
+    """Run one history (one or two device objects); returns the per-device cases, the property errors and
+    the raw record."""
+    raw = run_case(cfg, ops, manual)
+    cases, leaked = project(cfg, ops, raw)
+    errs = {}
+    for dev, op, ds in leaked:
+        errs.setdefault("C10:isolation:other-device-notified",
+                        "listeners of device %d received %r while only the other device was operated (%r)" % (dev, ds, op))
+    for n, (c, o, r) in enumerate(cases):
+        for key, what in oracle(c, o, r):
+            errs.setdefault(key, what if len(cases) == 1 else "device %d: %s" % (n + 1, what))
+    return cases, sorted(errs.items()), raw
+
+
+def with_twin(cfg, ops, twin_cfg, script):
+    """The same history with a second, busy device object alongside: after each op that does not run the
+    loop the other device performs the next op of `script`."""
+    out, k = [], 0
+    for op in ops:
+        out.append(op)
+        if op[0] not in ("RunAll", "Run1"):
+            out.append(["@2", script[k % len(script)]])
+            k += 1
+    return dict(cfg, twin=twin_cfg), out
+
+
+TWIN_CFG = {"protos": [[0, True, True, False, True], [2, True, True, False, False]]}
+TWIN_SCRIPT = [["Vol", 0, 3], ["Dev", 0, 1], ["Focus", 0, 2], ["Start"], ["Post", 0, 1], ["SetVol", 19], ["Err", 0], ["Dev", 2, 4],
+               ["Focus", 0, 1], ["Post", 0, 2], ["Vol", 2, 20]]
+
+
 # ------------------------------------------------------------------ Coq terms
 
 def c_cfg(cfg):
@@ -554,24 +665,37 @@ def run(ctx):
                 "(through the real FacadeAudio to a protocol Audio that applies and announces the level as RAOP/MRP/Companion do), run-all} - volumes include -0.0 and int 10 (equal to 0.0 / 10.0), device lists "
                 "agree on the identifier and differ in the name (renamed, unnamed); (b'') start followed by every sequence of length <= %d ending in "
                 "run-all over {error(hi), error(lo), post(hi), start, stop, close, takeover(lo), release, run-all} on both loops; "
-                "(b3) every ordered pair (a, b) of the 5 play statuses / 5 volumes / 5 device lists / 3 focus states reported as a, b, a and drained (and as a | a, b | a), each also with user listeners that raise on the first / on the first three notifications; "
-                "(c) %d random sequences of length 4..16 over the full alphabet (post/error by any protocol (real MrpPushUpdater.state_updated) with 5 statuses differing in one field each, start, stop, "
+                "(b3) every ordered pair (a, b) of play statuses (5 with derived hash; one with explicit hash against each single-field variant of it, every field of Playing incl. hash alone) / 8 volumes / 5 device lists / 3 focus states reported as a, b, a and drained (and as a | a, b | a), each also with user listeners that raise on the first / on the first three notifications; "
+                "(c) %d random sequences of length 4..16 over the full alphabet (post/error by any protocol (real MrpPushUpdater.state_updated) with 5+1+16 statuses (explicit hash, every single-field variant), start, stop, "
                 "close, takeover/release of push and/or keyboard by any protocol, volume/output-device/focus dispatch (8/5/3 values), user set_volume/volume_up/volume_down, "
-                "run-one (stepped loop only), run-all), random configuration, half on each loop.  distinct = (configuration, loop mode, sequence); "
+                "run-one (stepped loop only), run-all), random configuration, half on each loop; a quarter of them, the comparer block and the value pairs also with a SECOND device object "
+                "(own facade, dispatcher and listeners) idle or busy in the same process, histories interleaved, each device judged against its own events.  distinct = (configuration, loop mode, sequence); "
                 "non-trivial = a user listener received at least one call" % (len(exh_cfgs), maxlen, maxlen, maxlen, nrand))
     cases = []
     shortest = {}      # violation key -> shortest failing sequence seen
 
+    budget = 1500 if ctx.thorough else 200        # seconds for driving the implementation
+    t_start = time.time()
+    over = []
+
     def one(cfg, ops, manual, kind):
-        outs = run_case(cfg, ops, manual)
-        cases.append((cfg, ops, outs))
+        if time.time() - t_start > budget:
+            # the implementation under test is far slower than the reference tree (e.g. state that piles up
+            # from run to run): stop enumerating, report what was found
+            if not over:
+                over.append(kind)
+            return
+        percase, errs, raw = judge(cfg, ops, manual)
+        cases.extend(percase)            # two device objects: each one is an ordinary case of its own
         ctx.count(kind)
         ctx.count("loop:" + ("stepped" if manual else "asyncio"))
-        ctx.case((json.dumps(cfg), manual, json.dumps(ops)), nontrivial=any(ds for _, ds in outs),
-                 sample={"cfg": cfg, "manual_loop": manual, "ops": ops, "impl": outs})
-        for key, what in oracle(cfg, ops, outs):
+        if len(percase) > 1:
+            ctx.count("two-device-objects")
+        ctx.case((json.dumps(cfg), manual, json.dumps(ops)), nontrivial=any(ds for rec in raw for ds in rec[1:]),
+                 sample={"cfg": cfg, "manual_loop": manual, "ops": ops, "impl": raw})
+        for key, what in errs:
             if key not in shortest or len(ops) < len(shortest[key][1]["ops"]):
-                shortest[key] = (what, {"cfg": cfg, "manual_loop": manual, "ops": ops, "impl": outs})
+                shortest[key] = (what, {"cfg": cfg, "manual_loop": manual, "ops": ops, "impl": raw})
 
     for fname, d in common.load_corpus(ctx.pid):
         r = d.get("replay", d)
@@ -605,6 +729,10 @@ def run(ctx):
             one(cfg, list(seq), bool(length % 2), "exhaustive-comparers-len%d" % length)
             if length < maxlen:      # the same with user listeners that raise on the first two notifications
                 one(dict(cfg, faults=[0, 1]), list(seq), bool(length % 2), "exhaustive-comparers-len%d" % length)
+                # ... and with a second device object alongside: idle, and busy with changes of its own
+                one(dict(cfg, twin=TWIN_CFG), list(seq), False, "exhaustive-comparers-len%d" % length)
+                if length < maxlen - 1:
+                    one(*with_twin(cfg, list(seq), TWIN_CFG, TWIN_SCRIPT), False, "exhaustive-comparers-len%d" % length)
     # (b'') the error path: a protocol's updater reports an error (real MrpPushUpdater.state_updated ->
     # loop.call_soon(listener.playstatus_error, ...)) around start / stop / close / takeover
     cfg = EXH_CFGS[1]
@@ -625,20 +753,40 @@ def run(ctx):
     # raised was still a delivery (the next old value is the one the listener was told)
     for plan in ([], [0], [0, 1, 2]):
         cfgp = dict(cfg, faults=plan) if plan else cfg
-        for a in range(NSTATUS):
-            for b in range(NSTATUS):
+        spairs = [(a, b) for a in range(STATUS_BASE) for b in range(STATUS_BASE)]
+        spairs += [(STATUS_BASE, k) for k in range(STATUS_BASE + 1, NSTATUS)] + [(k, STATUS_BASE) for k in range(STATUS_BASE + 1, NSTATUS)]
+        for a, b in spairs:
                 one(cfgp, [["Start"], ["Post", r0, a], ["Post", r0, b], ["Post", r0, a], ["RunAll"]], bool((a + b) % 2), "value-pairs")
         for kind, dom in (("Vol", VOL_PICK), ("Dev", range(len(DEV_VALUES))), ("Focus", range(3))):
             for a in dom:
                 for b in dom:
                     one(cfgp, [[kind, r0, a], [kind, r0, b], [kind, r0, a], ["RunAll"]], bool((a + b) % 2), "value-pairs")
                     one(cfgp, [[kind, r0, a], ["RunAll"], [kind, r0, a], [kind, r0, b], ["RunAll"], [kind, r0, a], ["RunAll"]], bool((a + b) % 2), "value-pairs")
+                    if not plan:      # ... and with a second, busy device object in the same process
+                        one(*with_twin(cfgp, [[kind, r0, a], [kind, r0, b], ["RunAll"], [kind, r0, a], ["RunAll"]], TWIN_CFG, TWIN_SCRIPT), False, "value-pairs")
     ctx.exhaustive = True
     for i in range(nrand):
         cfg = rand_cfg(ctx.rng)
         manual = bool(i % 2)
+        if i % 4 == 0:
+            # two device objects in one process, histories interleaved, each judged against its own events
+            cfg2 = rand_cfg(ctx.rng)
+            a = [o for o in rand_ops(ctx.rng, cfg, ctx.rng.randint(4, 12), False)]
+            b = [o for o in rand_ops(ctx.rng, cfg2, ctx.rng.randint(2, 10), False) if o[0] != "RunAll"]
+            ops = []
+            while a or b:
+                if b and (not a or ctx.rng.random() < 0.4):
+                    ops.append(["@2", b.pop(0)])
+                else:
+                    ops.append(a.pop(0))
+            one(dict(cfg, twin=cfg2), ops + [["RunAll"]], False, "random")
+            continue
         one(cfg, rand_ops(ctx.rng, cfg, ctx.rng.randint(4, 16), manual), manual, "random")
     ctx.traces = len(cases)
+    if over:
+        ctx.exhaustive = False
+        ctx.tie_broken("budget:enumeration-cut-short", "driving the implementation took more than %d s; stopped in family %r after %d cases"
+                       % (budget, over[0], len(cases)))
     for key in sorted(shortest):
         ctx.violation(key, shortest[key][0], shortest[key][1])
     items = []
@@ -682,10 +830,9 @@ def replay(ctx, path):
     d = json.load(open(path))
     r = d.get("replay", d)
     manual = bool(r.get("manual_loop"))
-    outs = run_case(r["cfg"], r["ops"], manual)
-    errs = oracle(r["cfg"], r["ops"], outs)
+    _, errs, raw = judge(r["cfg"], r["ops"], manual)
     print("cfg=%s loop=%s" % (json.dumps(r["cfg"]), "stepped" if manual else "asyncio"))
-    for op, (res, ds) in zip(r["ops"], outs):
-        print("  %-36s -> %-8s delivered=%s" % (op, res, ds))
+    for op, rec in zip(r["ops"], raw):
+        print("  %-36s -> %-8s delivered=%s" % (op, rec[0], rec[1] if len(rec) == 2 else {"device1": rec[1], "device2": rec[2]}))
     print("property-errors=%s" % errs)
     return 1 if errs else 0
